@@ -12,7 +12,7 @@ from sx import api as sx
 from sx.runner import Harness
 
 PROPERTY = "C17"
-MODULES = ["aiortc.utils", "aiortc.rtcsctptransport"]
+MODULES = ["aiortc.utils", "aiortc.rtcsctptransport", "aiortc.rtcrtpsender", "aiortc.rtp"]
 DEADLINE = {"quick": 300, "thorough": 900}
 
 
@@ -96,6 +96,7 @@ HARNESSES = {
     "rel-tsmap": Harness("rel-tsmap", rel.h_rel_tsmap, lambda tier: [{"n": n} for n in (2, 3, 4)], style="REL", bounds="2..4 non-decreasing timestamps with steps < 2^31 (several trips around the 32-bit space) from a symbolic 32-bit origin", encoded=REL_ENC, twin="rel-tsmap-done", opts={"samples": 1}),
     "rel-sctp-recv": Harness("rel-sctp-recv", rel.h_rel_sctp_recv, lambda tier: [{"layout": l, "k": k} for l in ([1, 1, 1], [2, 1]) for k in ((3,) if tier == "quick" else (3, 4, 5))] + [{"layout": [1, 1, 1], "k": k, "fwd": True} for k in ((3,) if tier == "quick" else (3, 4))], style="REL", bounds="3 chunks (1+1+1 or 2+1 fragments), 3 (quick) / 3..5 solver-chosen arrivals (in one job set also a FORWARD-TSN abandoning the first message), TSN and SSN origins symbolic vs 1000/10; deliveries, cumulative TSN, SACK gap blocks and duplicates compared", encoded=REL_ENC, twin="rel-sctp-recv-done", opts={"samples": 1}),
     "pr-near-wrap": Harness("pr-near-wrap", lambda ctx, **kw: __import__("harness.c06_partial", fromlist=["h_bmc"]).h_bmc(ctx, **kw), lambda tier: [j for j in __import__("harness.c06_partial", fromlist=["_bmc_jobs"])._bmc_jobs(tier) if j.get("near")], style="BMC", bounds="the C06 back-to-back BMC (reliable + partially reliable channel, 3 solver-chosen loss/timer events, loss-free suffix) with the TSN origin just below 2^32: abandonment, FORWARD-TSN and the advanced peer ack point across the wrap", encoded=REL_ENC + ["aiortc.rtcsctptransport:RTCSctpTransport._update_advanced_peer_ack_point", "aiortc.rtcsctptransport:RTCSctpTransport._receive_forward_tsn_chunk"], twin="suffix-done", opts={"samples": 1}),
+    "sender-rtx-wrap": Harness("sender-rtx-wrap", lambda ctx, **kw: __import__("harness.c11_nackrtx", fromlist=["h_retransmit"]).h_retransmit(ctx, **kw), lambda tier: [{"rtx": True, "nlost": 2}], style="STEP", bounds="sender with a 3-packet history at a symbolic 16-bit origin and its RTX sequence number at 65535: two retransmissions carry RTX sequence numbers 65535 and 0", encoded=["aiortc.rtcrtpsender:RTCRtpSender._retransmit", "aiortc.rtcrtpsender:RTCRtpSender._handle_rtcp_packet", "aiortc.rtp:wrap_rtx"], twin="nack-handled", opts={"samples": 1}),
     "rel-reconfig": Harness("rel-reconfig", rel.h_rel_reconfig, lambda tier: [{"n": n} for n in ((2,) if tier == "quick" else (2, 3))], style="REL", bounds="2 (quick) / 3 channel closes, each answered, re-configuration request sequence at a symbolic 32-bit origin vs 1000", encoded=REL_ENC + ["aiortc.rtcsctptransport:RTCSctpTransport._transmit_reconfig", "aiortc.rtcsctptransport:RTCSctpTransport._receive_reconfig_param"], twin="rel-reconfig-done", opts={"samples": 1}),
     "rel-sctp-send": Harness("rel-sctp-send", rel.h_rel_sctp_send, lambda tier: [{"q": q, "ngaps": g} for q in ((2, 3) if tier == "quick" else (2, 3, 4)) for g in (0, 1, 2) if not (tier == "quick" and q == 3 and g == 2)], style="REL", bounds="sent queue of 2..3 (4) chunks with symbolic sizes and miss counters, one SACK with symbolic cumulative point and <=2 gap blocks, TSN origin symbolic vs 1000", encoded=REL_ENC, twin="rel-sctp-send-done", opts={"samples": 1}),
     "crosshair-lemmas": Harness("crosshair-lemmas", xh.h_crosshair, lambda tier: [{"bits": 16}, {"bits": 32}], style="LEMMA (second opinion: CrossHair 0.0.110 on the same source text)", bounds="the 7 serial-arithmetic lemmas at 16 and 32 bits and the 2 tsn_plus_one/minus_one lemmas, over the full value ranges; 40 s per condition", encoded=["aiortc.utils:uint16_add", "aiortc.utils:uint16_gt", "aiortc.utils:uint16_gte", "aiortc.utils:uint32_add", "aiortc.utils:uint32_gt", "aiortc.utils:uint32_gte", "aiortc.rtcsctptransport:tsn_plus_one", "aiortc.rtcsctptransport:tsn_minus_one"], twin="crosshair-ran"),
